@@ -247,3 +247,28 @@ def run_replay(ctx, path):
     ctx.cov["replay"]["replayed"] = info
     ctx._distinct.update(["replay:" + path, "replay-steps:%d" % info["steps"]])
     return True
+
+
+def run_ad_focus(ctx, num):
+    """C06/C01 clause on composed replies, on the same driver: AD=1 only when every piece of a reply (alias hops
+    served from separate entries on the message path, the byte path and the wire-born path) was validated.
+    The lifetime predicates are C04's and count as drift here."""
+    tot = {}
+    for cfg, chain, tag in (("Sim_LeaseAnswer.cfg", SIM_CHAIN, "ad"), ("Sim_LeaseAnswerNeg.cfg", NEG_CHAIN, "adn")):
+        behs = sim_behaviours(ctx, "MC_LeaseAnswer.tla", cfg, num, 40, {"now", "reply", "req", "nextId"})
+        bl = answer_behaviours(behs, chain, tag)
+        if len(bl) < num // 2:
+            raise vf.MachineryError("only %d behaviours generated for the AD pass" % len(bl))
+        inp = {"chain": chain, "negKey": "ng", "scopedKey": "sc", "ecsCap": 3, "cutMax": 600, "behaviours": bl,
+               "traceOut": os.path.join(ctx.scratch, "c06_%s.ndjson" % tag), "focus": "ad"}
+        res = ctx.go_driver("./c04", "TestLeaseReplay", inp, name="c06_" + tag, timeout=1500)
+        ctx.take_driver_result(res, "[composed AD, chain %s] " % "-".join(chain))
+        cnt = res.get("counters", {})
+        if cnt.get("replies_with_ad", 0) < 50 or cnt.get("op_Chase", 0) == 0:
+            raise vf.MachineryError("vacuous AD pass: %s" % {k: cnt.get(k) for k in ("replies_with_ad", "op_Chase", "steps")})
+        tot[tag] = {"behaviours": len(bl), "replies_with_ad": cnt.get("replies_with_ad", 0), "chases": cnt.get("op_Chase", 0),
+                    "served_via_wire": cnt.get("served_via_wire", 0), "served_via_msgw": cnt.get("served_via_msgw", 0)}
+        for b in bl:
+            ctx._distinct.add("c06-ad:%s:%s" % (tag, b["id"]))
+    ctx.cov["replay"]["composed_ad"] = tot
+    return tot
